@@ -83,7 +83,8 @@ SIMPLE = [
 ]
 
 SIMPLE_ALPHA = ['INFOa', 'INFO', 'OKAY', 'OKAYxy', 'DATA00000001', 'FAILboom',
-                'XXXXjunk', 'OK', '', 'okay', 'FAIL5% full %s', '%d%%XX']       # (device text is data, never a format string)
+                'XXXXjunk', 'OK', '', 'okay', 'FAIL5% full %s', '%d%%XX',       # (device text is data, never a format string)
+                'INFOline1\nline2', 'OKAYslot-a: yes\nslot-b: no', 'FAILno space\nleft']     # (... and may span lines)
 
 
 def classify(exc, ue):
@@ -140,7 +141,7 @@ def run_simple(entry, script):
 def dl_alpha(n):
   return ['INFOa', 'INFO', 'DATA%08x' % n, 'DATA%08xtail' % n,
           'DATA%08x' % (n + 1), 'DATA%08x' % (n + 0x100), 'DATA0000', 'DATAzzzzzzzz',
-          'OKAY', 'OKAYdone', 'FAILnospace', 'XXXX', '', 'DA', 'FAIL9% %s']
+          'OKAY', 'OKAYdone', 'FAILnospace', 'XXXX', '', 'DA', 'FAIL9% %s', 'OKAYtwo\nlines']
 
 
 class ShortSource(object):
@@ -344,6 +345,42 @@ def run_pair(e1, s1, e2, s2):
   return bad
 
 
+# ---- two downloads on ONE connection object: the second one's progress starts from zero whatever happened to the first ----
+def run_download_pair(n1, tail1, n2):
+  fp, ue = _mods()
+  script = ['DATA%08x' % n1] + list(tail1) + ['DATA%08x' % n2, 'OKAYdone']
+  usb = FakeUsb(script)
+  cmds = fp.FastbootCommands(usb)
+  bad = []
+  prog1, prog2 = [], []
+  try:
+    cmds.download(io.StringIO(image_of(n1)), source_len=n1, progress_callback=lambda c, t: prog1.append((c, t)))
+  except Exception:  # pylint: disable=broad-except
+    pass           # the first download may fail: that is the point
+  w0 = len(usb.writes)
+  ret, exc = None, None
+  try:
+    ret = cmds.download(io.StringIO(image_of(n2)), source_len=n2, progress_callback=lambda c, t: prog2.append((c, t)))
+  except Exception as e:  # pylint: disable=broad-except
+    exc = e
+  if exc is not None or ret != 'done':
+    bad.append(('result', 'second download returned %r / raised %r, the device answered OKAYdone' % (ret, exc)))
+  body = usb.writes[w0 + 1:]
+  if ''.join(body) != image_of(n2):
+    bad.append(('image', 'second download sent %d bytes, image has %d' % (sum(map(len, body)), n2)))
+  sums, acc = [], 0
+  for b in body:
+    acc += len(b)
+    sums.append((acc, n2))
+  if prog2 != sums:
+    bad.append(('progress', 'second download reported progress %r, expected cumulative %r (first download: %d bytes, ended by %r)'
+                % (prog2, sums, n1, list(tail1))))
+  return bad
+
+
+DL_PAIR_TAILS = [['OKAY'], ['FAILnospace'], ['XXXXjunk'], ['DATA00000001'], ['INFOx', 'FAILlate']]
+
+
 def _pair_work(item):
   i1, start, step = item
   n, viols = 0, []
@@ -366,6 +403,16 @@ def run(tier):
   npairs = sum(r[0] for r in pres)
   rep.add_part('two commands on one connection object', states=npairs, transitions=2 * npairs, traces_validated_against_impl=npairs,
                exhaustive=True, samples=[{'commands': [e[0] for e in SIMPLE], 'scripts': PAIR_SCRIPTS}])
+  ndl = 0
+  for n1 in (1, 1025, 3072):
+    for ti, tail in enumerate(DL_PAIR_TAILS):
+      for n2 in (1, 1025, 2048):
+        ndl += 1
+        for kind, what in run_download_pair(n1, tail, n2):
+          rep.merge_violations([('dlpairs:%s:%s' % (kind, tail[-1][:4]), 'download(%d) answered %r, then download(%d) on the same object: %s'
+                                 % (n1, tail, n2, what), {'dlpair': [n1, ti, n2]})])
+  rep.add_part('two downloads on one connection object', states=ndl, transitions=2 * ndl, traces_validated_against_impl=ndl,
+               exhaustive=True, samples=[{'first_download_ends_with': DL_PAIR_TAILS, 'sizes': [1, 1025, 2048, 3072]}])
   items = work_items(tier)
   res = common.pmap(_work, items, chunksize=1)
   st = tr = 0
@@ -393,6 +440,12 @@ def run(tier):
 
 
 def replay(art):
+  if 'dlpair' in art.get('replay', {}):
+    n1, ti, n2 = art['replay']['dlpair']
+    bad = run_download_pair(n1, DL_PAIR_TAILS[ti], n2)
+    for x in bad:
+      print('VIOLATED', x)
+    return 1 if bad else 0
   if 'pair' in art.get('replay', {}):
     i1, a, i2, b = art['replay']['pair']
     bad = run_pair(SIMPLE[i1], PAIR_SCRIPTS[a], SIMPLE[i2], PAIR_SCRIPTS[b])
